@@ -27,10 +27,11 @@ done
 # benign seeds: seeded changes that a repo fix made behaviour-preserving
 for d in seeded/C*; do
   id=$(basename $d)
+  [ -f $d/meta.json ] || continue
   python3 -c "
 import json,sys
 m=json.load(open('$d/meta.json'))
-sys.exit(0 if m.get('status')=='obsolete' and 'behaviour-preserving' in (m.get('why','')+m.get('needs_to_manifest','')) else 1)" || continue
+sys.exit(0 if m.get('status')=='obsolete' and 'behaviour-preserving' in (m.get('why','')+m.get('needs_to_manifest','')) else 1)" 2>/dev/null || continue
   git -C /repo apply /verif/$d/patch.diff 2>/dev/null || { echo "$id (benign seed): does not apply"; continue; }
   bin/gmverif check -prop all -tier quick -repo /repo -verif /tmp/benigncheck > /tmp/benigncheck/$id.out 2>&1
   git -C /repo checkout -- .
